@@ -5,6 +5,8 @@
   KNOWN_FINDINGS.txt `fixed:` entries) and quantify over every configuration, every state
   reachable by any sequence of operations (`Reach`), every message with arbitrary field values.
   The ledger (`Spec/Ledger.lean`) is computed from the observed replies only.
+  The session clause ("never … an address the session currently tracks for a different MAC") is
+  `C11_tracked_full`.
 -/
 import PacketVerif.Lemmas.Dhcp4Reply
 namespace PV.Props.C11
@@ -195,7 +197,7 @@ theorem reply_lease {cfg : Cfg} {s : State} (op : Op) (m : Msg) (hm : msgOf op =
       · show (discLease s now m').sub = _
         rw [e2]; exact findOrCreate_sub _ _ _
       · rcases hip with hk | hav
-        · exact (e4 _ hk).1
+        · exact (e4 _ hk).1.1
         · exact (available_usable hav).2.1
   | request now m' =>
     simp only [msgOf, Option.some.injEq] at hm; subst hm
@@ -317,14 +319,90 @@ theorem fresh_offer_untracked {cfg : Cfg} {s : State} (now : Nat) (m : Msg) (r :
         simp [freshLease] at this
     · left; exact (available_usable hav).2.2
 
-/-- full-strength reading of the last clause of C11 (also for confirmations of an earlier offer / lease):
-    no OFFER/ACK of an address the session currently tracks for a different MAC.  The code only consults
-    the session when it allocates a fresh address, so this fails (`finding_confirm_after_session_conflict`). -/
-def C11_tracked_full : Prop :=
-  ∀ (cfg : Cfg) (s : State) (L : Ledger), Reach cfg s L → ∀ (op : Op) (m : Msg), msgOf op = some m →
-    ∀ o, o ∈ step cfg s op → ∀ r, r ∈ o.2 → r.typ ≠ .nak → ¬ TrackedByOther s.hosts r.yiaddr m.chaddr
+/-- `Session.FindIP` of the model is the association-list lookup the specification speaks about -/
+theorem lookup_eq_sessionKnows (s : State) (ip : IP) : s.hosts.lookup ip = sessionKnows s ip := by
+  unfold sessionKnows
+  induction s.hosts with
+  | nil => rfl
+  | cons e es ih =>
+    cases e with
+    | mk k v =>
+      by_cases hk : k = ip
+      · subst hk; simp [List.lookup, List.find?]
+      · have h1 : (ip == k) = false := by simpa using fun h => hk h.symm
+        have h2 : (k == ip) = false := by simpa using hk
+        simp only [List.lookup, h1, List.find?, h2]
+        exact ih
 
-/-- the part of that clause that does hold: see `fresh_offer_untracked` (fresh allocations are untracked). -/
+/-- the specification's `TrackedByOther` is what the code's `takenByOther` test decides -/
+theorem trackedByOther_iff (s : State) (ip : IP) (mac : MAC) :
+    TrackedByOther s.hosts ip mac ↔ takenByOther s mac (some ip) = true := by
+  unfold TrackedByOther takenByOther
+  rw [lookup_eq_sessionKnows]
+  cases hk : sessionKnows s ip with
+  | none => simp [hk]
+  | some m' => simp [hk]
+
+/-- **C11 (d), full strength: no OFFER and no ACK — fresh allocation, re-offer of a previous offer or of
+    the current address, confirmation by a selecting / renewing / rebinding / rebooting REQUEST — ever
+    carries an address the session currently tracks for a MAC other than the client's.**
+    (`hosts` is the session as the handler finds it when the message arrives; the rebooting branch asks
+    it before `DHCPv4Update` records the address for the requester.)  Before the `fix:` commit recorded in
+    KNOWN_FINDINGS.txt (confirm-after-session-conflict) only fresh allocations consulted the session and this
+    statement was refuted by a re-offer. -/
+theorem C11_tracked_full :
+  ∀ (cfg : Cfg) (s : State) (L : Ledger), Reach cfg s L → ∀ (op : Op) (m : Msg), msgOf op = some m →
+    ∀ o, o ∈ step cfg s op → ∀ r, r ∈ o.2 → r.typ ≠ .nak → ¬ TrackedByOther s.hosts r.yiaddr m.chaddr := by
+  intro cfg s L _ op m hm o ho r hr ht
+  rw [trackedByOther_iff]
+  cases op with
+  | discover now m' =>
+    simp only [msgOf, Option.some.injEq] at hm; subst hm
+    simp only [step, List.mem_singleton] at ho; subst ho
+    rcases discover_outcome cfg s now m' with ⟨cur, e⟩ | ⟨s1, ip, _, _, _, e, hip⟩ <;> rw [e] at hr
+    · simp at hr
+    · simp only [List.mem_singleton] at hr
+      subst hr
+      obtain ⟨_, _, _, e4⟩ := discLease_props s now m' _ rfl
+      have hy : (mkReply cfg m' RType.offer (offerLease s now m' ip) (some ip)).yiaddr = ip := rfl
+      rw [hy]
+      rcases hip with hk | hav
+      · have := (e4 _ hk).1.2
+        rw [findOrCreate_mac] at this
+        simp [this]
+      · have hn := (available_usable hav).2.2
+        simp [takenByOther, hn]
+  | request now m' =>
+    simp only [msgOf, Option.some.injEq] at hm; subst hm
+    simp only [step, List.mem_singleton] at ho; subst ho
+    rcases request_outcome cfg s now m' with e | ⟨l', rs, _, e, hn⟩ | ⟨hv, e⟩
+    · rw [e] at hr; simp at hr
+    · rw [e] at hr; exact absurd (hn r hr) ht
+    · rw [e, ackLease_eq] at hr
+      simp only [List.mem_singleton] at hr
+      have ha := verdict_ack hv
+      have hip := ackedLease_ip ha now
+      subst hr
+      have hy : (mkReply cfg m' RType.ack (ackedLease cfg now (findOrCreate s (clientId m') m'.chaddr))
+          (ackedLease cfg now (findOrCreate s (clientId m') m'.chaddr)).ip).yiaddr = reqIPOf m' := by
+        simp only [mkReply, hip, Option.getD_some]
+      rw [hy]
+      have := ha.untracked
+      rw [findOrCreate_mac] at this
+      simp [this]
+  | decline m' =>
+    simp only [step, List.mem_singleton] at ho; subst ho
+    rcases decline_outcome cfg s m' with e | e <;> rw [e] at hr <;> simp at hr
+  | release m' =>
+    simp only [step, List.mem_singleton] at ho; subst ho
+    simp [release] at hr
+  | minuteTick _ => simp [msgOf] at hm
+  | capture _ => simp [msgOf] at hm
+  | releaseCapture _ => simp [msgOf] at hm
+  | hostSeen _ _ => simp [msgOf] at hm
+  | hostGone _ => simp [msgOf] at hm
+
+/-- fresh allocations are even unknown to the session altogether (see `fresh_offer_untracked`). -/
 theorem C11_tracked_partial {cfg : Cfg} {s : State} (now : Nat) (m : Msg) (r : Reply)
     (hr : r ∈ (discover cfg s now m).2)
     (hnew : ∀ l, (clientId m, l) ∈ s.table → l.offer ≠ some r.yiaddr ∧ l.ip ≠ some r.yiaddr) :
@@ -373,16 +451,41 @@ def sConflict : State :=
   { table := [(macA, { state := .discover, mac := macA, ip := none, offer := some 10, xid := [1, 0, 0, 1], sub := .net2, expiry := 0 })],
     next1 := 1, next2 := 11, hosts := [(10, macB)], captured := [macA] }
 
-theorem finding_confirm_after_session_conflict : ¬ C11_tracked_full := by
-  intro h
-  have hreach : Reach cfgEx sConflict [] :=
-    ⟨[.capture macA, .discover 100 (msgEx 1 none none), .hostSeen 10 macB], by decide⟩
-  have := h cfgEx sConflict [] hreach (.discover 100 (msgEx 1 none none)) (msgEx 1 none none) rfl
-    (discover cfgEx sConflict 100 (msgEx 1 none none)) (by simp [step])
-    (mkReply cfgEx (msgEx 1 none none) .offer
-      { state := .discover, mac := macA, ip := none, offer := some 10, xid := [1, 0, 0, 1], sub := .net2, expiry := 0 } (some 10))
-    (by decide) (by decide)
-  exact this ⟨macB, by decide, by decide⟩
+/-- `sConflict` is reachable, and it is the witness of the recorded defect confirm-after-session-conflict
+    (corpus/C11/known-confirm-after-session-conflict.ops): the session tracks A's pending offer 10 for B -/
+theorem sConflict_reach : Reach cfgEx sConflict [] :=
+  ⟨[.capture macA, .discover 100 (msgEx 1 none none), .hostSeen 10 macB], by decide⟩
+
+example : TrackedByOther sConflict.hosts 10 macA := ⟨macB, by decide, by decide⟩
+
+/-- regression of the recorded defect: the repeated DISCOVER of A is no longer answered with the tracked
+    address 10 (it was, before the fix) but with a fresh one; A's REQUEST for the old offer is refused;
+    and once A holds 11 while the session sees 11 on B, renew / reboot / rebind / select are all refused -/
+example : (discover cfgEx sConflict 100 (msgEx 1 none none)).2.map (·.yiaddr) = [11] := by decide
+
+example : (request cfgEx sConflict 100 (msgEx 1 (some [0, 0, 0, 10]) (some [0, 0, 0, 9]))).2.map (·.typ) = [.nak] := by
+  decide
+
+def sLeased : State :=
+  { table := [(macA, { state := .allocated, mac := macA, ip := some 11, offer := none, xid := [1, 0, 0, 1], sub := .net2,
+                       expiry := 14500 })],
+    next1 := 1, next2 := 12, hosts := [(11, macB)], captured := [macA] }
+
+example : ([{ msgEx 1 none none with ciaddr := 11, srcIP := 11 },                 -- renewing
+            { msgEx 1 none none with ciaddr := 11, srcIP := 4294967295 },         -- rebinding
+            msgEx 1 (some [0, 0, 0, 11]) none,                                    -- rebooting
+            msgEx 1 (some [0, 0, 0, 11]) (some [0, 0, 0, 9])].map                 -- selecting again
+          (fun m => (request cfgEx sLeased 100 m).2.map (·.typ))) = [[.nak], [.nak], [.nak], [.nak]] := by decide
+
+/-- … and all four are acknowledged when the session tracks 11 for A itself or not at all (non-vacuity of the
+    confirmations `C11_tracked_full` speaks about) -/
+example : ([{ msgEx 1 none none with ciaddr := 11, srcIP := 11 },
+            { msgEx 1 none none with ciaddr := 11, srcIP := 4294967295 },
+            msgEx 1 (some [0, 0, 0, 11]) none,
+            msgEx 1 (some [0, 0, 0, 11]) (some [0, 0, 0, 9])].map
+          (fun m => ((request cfgEx { sLeased with hosts := [(11, macA)] } 100 m).2.map (·.typ),
+                     (request cfgEx { sLeased with hosts := [] } 100 m).2.map (·.typ))))
+    = [([.ack], [.ack]), ([.ack], [.ack]), ([.ack], [.ack]), ([.ack], [.ack])] := by decide
 
 /-- non-vacuity of `Reach` / `ack_unique` / `never_reserved`: a reachable state with a non-empty ledger -/
 example : Reach cfgEx
